@@ -409,7 +409,7 @@ static int pbt(uint64_t seed, uint64_t ncases, unsigned W, unsigned max_scale, c
 
 int driver_main(int argc, char** argv) {
   uint64_t seed = 1, cases = 1000; unsigned W = 16, max_scale = 100; std::string rundir = "/var/tmp/eng-run"; std::string rep; int timeout_s = 0;
-  bool quiet = false; int fixed = -1;
+  bool quiet = false; int fixed = -1; bool do_sweep = false; long sweep_one = -1;
   for (int i = 1; i < argc; i++) {
     std::string a = argv[i];
     auto nxt = [&]() -> const char* { return i + 1 < argc ? argv[++i] : ""; };
@@ -422,6 +422,8 @@ int driver_main(int argc, char** argv) {
     else if (a == "--timeout") timeout_s = atoi(nxt());
     else if (a == "--quiet") quiet = true;
     else if (a == "--fixed") fixed = atoi(nxt());
+    else if (a == "--sweep") do_sweep = true;
+    else if (a == "--sweep-one") sweep_one = atol(nxt());
     else if (a == "--sub") g_params.sub = atol(nxt());
     else if (a == "--known") { std::string k = nxt(); size_t p = 0; while (p <= k.size()) { size_t q = k.find(',', p); if (q == std::string::npos) q = k.size(); if (q > p) g_known.insert(k.substr(p, q - p)); p = q + 1; } }
     else { fprintf(stderr, "unknown argument %s\n", a.c_str()); return 2; }
@@ -435,6 +437,21 @@ int driver_main(int argc, char** argv) {
     try { g_prop.fixed((unsigned)fixed, ci); } catch (Fail& f) { if (!quiet) printf("fixed case %d: FAIL %s\ncase: %s\n", fixed, f.msg.c_str(), ci.desc.c_str()); return 1; }
     if (!quiet) printf("fixed case %d: property holds\ncase: %s\n", fixed, ci.desc.c_str());
     return 0;
+  }
+  if (sweep_one >= 0 || do_sweep) {
+    if (!g_prop.sweep_item || !g_prop.sweep_count) { if (!quiet) printf("no sweep in this property\n"); return do_sweep ? 0 : 2; }
+    install_crash_handlers(); if (g_prop.setup) g_prop.setup();
+    uint64_t n = g_prop.sweep_count();
+    if (sweep_one >= 0) { CaseInfo ci; ci.want_desc = true; try { g_prop.sweep_item((uint64_t)sweep_one, ci); } catch (Fail& f) { if (!quiet) printf("sweep item %ld: FAIL %s\ncase: %s\n", sweep_one, f.msg.c_str(), ci.desc.c_str()); return 1; } if (!quiet) printf("sweep item %ld: property holds\ncase: %s\n", sweep_one, ci.desc.c_str()); return 0; }
+    mkdir(rundir.c_str(), 0755); std::vector<pid_t> pids(W); fflush(stdout);
+    for (unsigned w = 0; w < W; w++) { pid_t p = fork(); if (p == 0) { for (uint64_t i = w; i < n; i += W) { CaseInfo ci; try { g_prop.sweep_item(i, ci); } catch (Fail& f) { std::string path = rundir + "/sweepfail." + std::to_string(i); write_file(path, f.msg.data(), f.msg.size()); _exit(1); } } _exit(0); } pids[w] = p; }
+    int bad = 0; for (unsigned w = 0; w < W; w++) { int st; waitpid(pids[w], &st, 0); if (!WIFEXITED(st) || WEXITSTATUS(st) != 0) bad = WIFEXITED(st) ? WEXITSTATUS(st) : 3; }
+    uint64_t best = UINT64_MAX; std::string msg;
+    if (bad) { FILE* p = popen(("ls " + rundir).c_str(), "r"); char nm[512]; while (p && fgets(nm, sizeof nm, p)) { unsigned long long idx; if (sscanf(nm, "sweepfail.%llu", &idx) == 1 && idx < best) best = idx; } if (p) pclose(p); if (best != UINT64_MAX) { std::vector<uint8_t> m; read_file(rundir + "/sweepfail." + std::to_string(best), m); msg.assign(m.begin(), m.end()); } }
+    FILE* out = fopen((rundir + "/sweep.json").c_str(), "w");
+    if (bad && best != UINT64_MAX) { fprintf(out, "{\"status\":\"violation\",\"item\":%llu,\"items\":%llu,\"message\":\"%s\"}\n", (unsigned long long)best, (unsigned long long)n, jesc(msg).c_str()); fclose(out); printf("ENGINE: sweep item %llu fails: %s\n", (unsigned long long)best, msg.c_str()); return 1; }
+    if (bad) { fprintf(out, "{\"status\":\"harness_fault\",\"items\":%llu}\n", (unsigned long long)n); fclose(out); printf("ENGINE: sweep worker crashed\n"); return 2; }
+    fprintf(out, "{\"status\":\"ok\",\"items\":%llu,\"rule\":\"%s\"}\n", (unsigned long long)n, jesc(g_prop.sweep_rule ? g_prop.sweep_rule : "").c_str()); fclose(out); return 0;
   }
   if (!rep.empty()) return replay(rep, quiet);
   return pbt(seed, cases, W, max_scale, rundir, timeout_s);
